@@ -25,11 +25,16 @@ LEVEL_TEXT = (
     "Lean 4 theorems over a transliteration of dask/rewrite.py (after fix: commits 2ab889a and 88a2bf8): match_sound "
     "(every yielded (rule, sigma) has sigma(lhs) = term, via the exact specification instPattern), "
     "match_binds_varlist (sigma is the _process_match result: variables of the lhs in first-occurrence order, "
-    "repeated variables bound consistently), refutation witnesses for the code before the fixes "
-    "(old_match_unsound: arity forgotten by the preorder net; old_match_indexError: pop from the empty traverser "
-    "stack; old_apply_captures: sequential substitution). See LEVEL_NOTE of the evidence for which of "
-    "match_complete / match_terminates / rewrite_applies_iff are proved in the current build (listed in "
-    "coverage.theorems); until then completeness is validated against a brute-force matcher on every run.")
+    "repeated variables bound consistently), match_terminates (the explicit-stack loop of _match needs at most "
+    "2*(sum of path lengths + #rules)+3 iterations — proved via matchLoop_eq: the loop with its stack of saved "
+    "(traverser, node, matches) frames and restore_state_flag computes exactly the recursive depth-first walk of "
+    "the net), match_complete (for EVERY rule set and term, no arity discipline: every well-formed rule i and sigma "
+    "with sigma(lhs_i) = term is yielded with a substitution agreeing with sigma on the variables of the lhs), "
+    "rewrite_applies_iff (top-level rewrite = sigma(rhs) of the first yielded rule; unchanged iff no well-formed "
+    "rule has an instance equal to the term). Refutation witnesses for the code before the fixes: "
+    "old_match_unsound (arity forgotten by the preorder net), old_match_indexError (pop from the empty traverser "
+    "stack), old_apply_captures (sequential substitution). Not proved: that each rule is yielded at most once "
+    "(checked by the oracle on every run); bottom_up is modelled and diffed but has no theorem of its own.")
 LEVEL_NOTE = ("Trusted: Lean kernel + standard axioms; the correspondence harness; Python == on terms as structural "
               "equality; the trie is modelled by its set of residual paths (checked against the real trie on every "
               "run); unhashable atoms and callable right-hand sides are exercised by oracle only.")
